@@ -15,6 +15,14 @@ THEOREMS = [
     "Cv.C12.findPath_valid",
     "Cv.C12.findPath_shortest",
     "Cv.C12.findPath_core",
+    "Cv.C12e.encoded_precomputeBfs_isBall",
+    "Cv.C12e.encoded_findPath_valid",
+    "Cv.C12e.encoded_findPath_shortest",
+    "Cv.C12e.plain_findPath_valid",
+    "Cv.C12e.plain_findPath_shortest",
+    "Cv.C12e.encoded_findPath_valid_single_word",
+    "Cv.C12e.encoded_findPath_shortest_single_word",
+    "Cv.C12e.encoded1d_findPath_eq",
 ]
 
 
@@ -115,7 +123,7 @@ def main():
         body = json.load(open(os.path.join(VERIF, ck.replay) if not os.path.isabs(ck.replay) else ck.replay))
         ck.guard(run_case, ck, body["case"])
         ck.finish(rule="replay of one recorded case")
-    ck.lean_obligations("CvProps.C12", THEOREMS)
+    ck.lean_obligations(["CvProps.C12", "CvProps.C12e"], THEOREMS)
     for case in json.load(open(os.path.join(VERIF, "harness", "corpus", "C12.json"))):
         ck.guard(run_case, ck, case)
         ck.count("corpus")
